@@ -184,6 +184,17 @@ ALSO['C08'] += ' numpy/int truth flags, equilibrium constant of activation, Arrh
 ALSO['C10'] += ' Fractional compositions.'
 ALSO['C11'] += ' Digit-string ids.'
 ALSO['C13'] += ' Whole-number temperatures.'
+# round 4
+ALSO['C01'] += ' One reused conditions dictionary per species; rejected assignments.'
+ALSO['C05'] += ' File times come from the simulated clock (same-length overwrites within a tick), lasting faults, a Latin-1 writer locale.'
+ALSO['C06'] += ' Same-length variant mechanisms rewritten to the same name within a clock tick.'
+ALSO['C07'] += ' Lasting faults.'
+ALSO['C08'] += ' In-place coefficient edits, twin reactions from one string, rejected calls.'
+ALSO['C10'] += ' Clones, clear_offset, in-memory dictionary copies; offsets change only through their own object.'
+ALSO['C11'] += ' Objects with a past (evaluations, refused mutators, nested edits) before encoding.'
+ALSO['C13'] += ' In-place attach.'
+ALSO['C16'] += ' Stored bytes may change between write and load (NaN field, non-UTF-8 byte).'
+ALSO['C17'] += ' Snapshot copies.'
 
 
 def build():
